@@ -9,7 +9,9 @@
  *              TIMEOUT
  *          c19_open --f10                    (witness F10: ncmpi_def_var(..., varidp = NULL))
  *
- *   request line : <path>
+ *   request line : <path>            (read-only walk, answer below)
+ *                  <path> FILL       (open for writing, inq_var_fill, converting out-of-range put + iput/wait, fill_var_rec,
+ *                                     redefinition in fill mode; answer `FILL open=<e> v0:vf=<e>,put=<e>,... redef=<e> def=<e> enddef=<e> close=<e>`)
  *   answer line  (file <output-prefix>.<rank>, one per request):
  *       ERR <code> F <bytes hdr_fetch asked MPI-IO for|-> # fsz=<file size> grow=<growth of the allocator high-water mark> ms=<wall ms>
  *       OK <fmt> <numrecs|-> <ndims> <nvars> <ngatts> <unlimdim> D <len>... \
@@ -109,6 +111,44 @@ static void walk_atts(int ncid, int varid, int natts, int fmt, char *wf, int *wf
     *wfnp = wfn;
 }
 
+/* request `<path> FILL`: what an application does with a file whose variables carry _FillValue attributes:
+ * open for writing, ask for the fill value, a converting put of an out-of-range value (blocking and
+ * nonblocking: ncmpio_pack_xbuf needs the fill value), ncmpi_fill_var_rec, and a redefinition in fill mode. */
+static void do_fill(const char *path) {
+    int ncid = -1, err, nvars = 0, i, dimid = -1, wid = -1, old;
+    err = ncmpi_open(MPI_COMM_WORLD, path, NC_WRITE, MPI_INFO_NULL, &ncid);
+    fprintf(out, "FILL open=%d", err);
+    if (err != NC_NOERR) { fprintf(out, "\n"); return; }
+    ncmpi_inq_nvars(ncid, &nvars);
+    for (i = 0; i < nvars && i < 8; i++) {
+        nc_type xt = 0; int nd = 0, dimids[64], nofill = -1, j, isrec = 0, unlim = -1, req = NC_REQ_NULL, st1 = 0;
+        unsigned char fv[32]; MPI_Offset st[64], ct[64];
+        if (ncmpi_inq_varndims(ncid, i, &nd) != NC_NOERR || nd > 64) continue;
+        ncmpi_inq_var(ncid, i, NULL, &xt, &nd, dimids, NULL);
+        ncmpi_inq_unlimdim(ncid, &unlim);
+        for (j = 0; j < nd; j++) { st[j] = 0; ct[j] = 1; }
+        isrec = nd > 0 && dimids[0] == unlim;
+        err = ncmpi_inq_var_fill(ncid, i, &nofill, fv);
+        fprintf(out, " v%d:vf=%d", i, err);
+        if (xt == NC_CHAR) { char c = 'x'; err = ncmpi_put_vara_text_all(ncid, i, st, ct, &c); fprintf(out, ",put=%d", err); }
+        else if (xt == NC_DOUBLE) {
+            long long v = 7; err = ncmpi_put_vara_longlong_all(ncid, i, st, ct, &v); fprintf(out, ",put=%d", err);
+            err = ncmpi_iput_vara_longlong(ncid, i, st, ct, &v, &req); ncmpi_wait_all(ncid, 1, &req, &st1); fprintf(out, ",iput=%d/%d", err, st1);
+        } else {
+            double v = 1e300; err = ncmpi_put_vara_double_all(ncid, i, st, ct, &v); fprintf(out, ",put=%d", err);
+            err = ncmpi_iput_vara_double(ncid, i, st, ct, &v, &req); ncmpi_wait_all(ncid, 1, &req, &st1); fprintf(out, ",iput=%d/%d", err, st1);
+        }
+        if (isrec) { err = ncmpi_fill_var_rec(ncid, i, 0); fprintf(out, ",frec=%d", err); }
+    }
+    err = ncmpi_redef(ncid); fprintf(out, " redef=%d", err);
+    ncmpi_set_fill(ncid, NC_FILL, &old);
+    err = ncmpi_def_dim(ncid, "c19_zz", 2, &dimid);
+    if (err == NC_NOERR) err = ncmpi_def_var(ncid, "c19_ww", NC_INT, 1, &dimid, &wid);
+    fprintf(out, " def=%d", err);
+    err = ncmpi_enddef(ncid); fprintf(out, " enddef=%d", err);
+    err = ncmpi_close(ncid); fprintf(out, " close=%d\n", err);
+}
+
 static int do_f10(void) {
     int ncid, dimid, err;
     err = ncmpi_create(MPI_COMM_WORLD, "c19_f10.nc", NC_CLOBBER, MPI_INFO_NULL, &ncid);
@@ -143,7 +183,9 @@ int main(int argc, char **argv) {
     setvbuf(out, NULL, _IOFBF, 1 << 20);     /* an answer line reaches the file whole or not at all */
     while (fgets(line, sizeof line, in)) {
         pid_t pid = 0;
-        if (sscanf(line, "%4095s", path) != 1) continue;
+        char mode[16];
+        mode[0] = 0;
+        if (sscanf(line, "%4095s %15s", path, mode) < 1) continue;
         if (dofork) {
             fflush(out);
             pid = fork();
@@ -174,11 +216,16 @@ int main(int argc, char **argv) {
             }
         }
         int ncid = -1, err, fmt = 0, ndims = -1, nvars = -1, ngatts = -1, unlim = -2, i, j, wfn = 0, nrv = -1, cerr;
-        char wf[WFSZ], rd[1024]; int rdn = 0;
+        char wf[WFSZ], rd[1024], vf[256]; int rdn = 0, vfn = 0;
         MPI_Offset m0 = 0, m1 = 0, hs = -1, he = -1, rs = -1, numrecs = -1;
         long long ofetch = 0, ocalls = 0;
         struct stat sb; double t0;
-        wf[0] = 0; rd[0] = 0;
+        if (!strcmp(mode, "FILL")) {
+            alarm(secs); do_fill(path); alarm(0); fflush(out);
+            if (dofork && pid == 0) _exit(0);
+            continue;
+        }
+        wf[0] = 0; rd[0] = 0; vf[0] = 0;
         sb.st_size = -1; stat(path, &sb);
         ncmpi_inq_malloc_max_size(&m0);
         t0 = now_ms();
@@ -233,6 +280,11 @@ int main(int argc, char **argv) {
             WF(na >= 0, "varnatts");
             err = ncmpi_inq_varoffset(ncid, i, &off);
             WFE(err, "varoffset");
+            {   /* the fill value the library would use (a _FillValue attribute of the file, or the default) */
+                int nofill = -1; unsigned char fv[32];
+                err = ncmpi_inq_var_fill(ncid, i, &nofill, fv);
+                if (vfn < 200) vfn += snprintf(vf + vfn, sizeof vf - vfn, "%s%d", vfn ? "," : "", err);
+            }
             fprintf(out, " %d %d %lld %d", nd, (int)xt, (long long)off, na);
             for (j = 0; j < nd; j++) {
                 if (j < 64) fprintf(out, " %d", dimids[j]);
@@ -263,9 +315,9 @@ int main(int argc, char **argv) {
         walk_atts(ncid, NC_GLOBAL, ngatts, fmt, wf, &wfn, 1);
         cerr = ncmpi_close(ncid);
         alarm(0);
-        fprintf(out, " fetches=%lld fsz=%lld grow=%lld ms=%.0f hs=%lld he=%lld rs=%lld nrv=%d wf=%s rd=%s miss=%d close=%d\n",
+        fprintf(out, " fetches=%lld fsz=%lld grow=%lld ms=%.0f hs=%lld he=%lld rs=%lld nrv=%d wf=%s rd=%s vf=%s miss=%d close=%d\n",
                 ocalls, (long long)sb.st_size, (long long)(m1 - m0), now_ms() - t0, (long long)hs, (long long)he, (long long)rs, nrv,
-                wfn ? wf : "ok", rdn ? rd : "-", lookup_miss, cerr);
+                wfn ? wf : "ok", rdn ? rd : "-", vfn ? vf : "-", lookup_miss, cerr);
         fflush(out);
         if (dofork && pid == 0) _exit(0);
     }
